@@ -7,4 +7,5 @@ cd "$HERE/mc"
 mkdir -p target
 cargo build --offline --profile verif --bins
 cargo build --offline --profile verif-rel --bin c04 --bin c15 --bin c16 2>/dev/null || true
+(cd "$HERE/mc-real" && cargo build --offline --release)
 echo "setup ok"
